@@ -21,7 +21,7 @@ type C18Case struct {
 
 var _ = Register("C18", func() interface{} { return new(C18Case) }, func(c interface{}) string { return c18Oracle(c.(*C18Case)) })
 
-var c18Decl = &GenCfg{Depth: 3, Fanout: 3, MaxOpts: 4, MaxGroups: 2, NestGroups: 1, Kinds: []Kind{KComp, KCompSlice, KComp, KString, KInt, KBool, KBoolSlice, KStringSlice, KFuncS},
+var c18Decl = &GenCfg{Depth: 3, Fanout: 3, MaxOpts: 4, MaxGroups: 2, NestGroups: 1, Kinds: []Kind{KComp, KCompSlice, KCompPtr, KString, KInt, KBool, KBoolSlice, KStringSlice, KFuncS},
 	Pos: true, PosPct: 25, Ns: true, Req: 0, OptArg: true, Aliases: true, SubOpt: 40, NonASCII: true, CmdPct: 85, Desc: true}
 
 var c18Argv = &ArgvCfg{MaxItems: 2, WOpt: 55, WCluster: 12, WCmd: 8, WPlain: 8, WTerm: 2, WUnknown: 0, WJunk: 0, WRepeat: 10, BadVal: 0, Quote: 3}
@@ -69,13 +69,13 @@ func genC18(t *rapid.T) *C18Case {
 	var compLong, compShort []string
 	for n, o := range ws.Long {
 		longs = append(longs, n)
-		if o.Kind == KComp || o.Kind == KCompSlice {
+		if o.Kind == KComp || o.Kind == KCompSlice || o.Kind == KCompPtr {
 			compLong = append(compLong, n)
 		}
 	}
 	for s, o := range ws.Short {
 		shorts = append(shorts, s)
-		if (o.Kind == KComp || o.Kind == KCompSlice) && !o.IsOptional() {
+		if (o.Kind == KComp || o.Kind == KCompSlice || o.Kind == KCompPtr) && !o.IsOptional() {
 			compShort = append(compShort, s)
 		}
 	}
@@ -221,7 +221,7 @@ func c18Oracle(c *C18Case) string {
 			afterTerm = true
 		}
 	}
-	isComp := func(k Kind) bool { return k == KComp || k == KCompSlice }
+	isComp := func(k Kind) bool { return k == KComp || k == KCompSlice || k == KCompPtr }
 	comps := func(pfx, match string) []string {
 		var r []string
 		for _, w := range compRef(match) {
